@@ -8,6 +8,7 @@ import (
 	"os"
 	"runtime/debug"
 	"strings"
+	"time"
 
 	"golang.org/x/tools/go/ssa"
 
@@ -31,7 +32,20 @@ func (e *Engine) RunHarness(fn *ssa.Function) *Report {
 	root := &State{heap: map[int]Value{}, inited: map[*ssa.Package]bool{}, reached: map[string]bool{}}
 	e.pushFrame(root, fn, nil, nil, nil, retNormal)
 	e.work = []*State{root}
+	if e.Cfg.MaxWall > 0 {
+		e.deadline = time.Now().Add(e.Cfg.MaxWall)
+	}
+	e.lastProg = time.Now()
 	for len(e.work) > 0 {
+		if !e.deadline.IsZero() && time.Now().After(e.deadline) {
+			e.rep.Inconclusive = appendUniq(e.rep.Inconclusive, fmt.Sprintf("time budget %s exhausted after %d paths; %d pending states dropped (reduced coverage)", e.Cfg.MaxWall, e.rep.Paths, len(e.work)))
+			e.work = nil
+			break
+		}
+		if e.Cfg.Progress && time.Since(e.lastProg) > 20*time.Second {
+			e.lastProg = time.Now()
+			fmt.Fprintf(e.Log, "[progress %s] paths=%d pending=%d asserts=%d/%d violations=%d\n", e.rep.Harness, e.rep.Paths, len(e.work), e.rep.AssertsProved, e.rep.AssertsChecked, len(e.rep.Violations))
+		}
 		st := e.work[len(e.work)-1]
 		e.work = e.work[:len(e.work)-1]
 		e.runPath(st)
@@ -76,6 +90,9 @@ func (e *Engine) runPath(st *State) {
 	}()
 	for !st.done {
 		e.step(st)
+		if st.steps&0x3ff == 0 && !e.deadline.IsZero() && time.Now().After(e.deadline) {
+			panic(pathEnd{fmt.Sprintf("time budget %s exhausted inside a path (reduced coverage)", e.Cfg.MaxWall)})
+		}
 	}
 }
 
